@@ -46,7 +46,7 @@ def tok_classifier(pkey, nontrivial_rule):
     return classify
 
 
-def tok2_classifier(pkey, nontrivial_rule, dict_panic_is_failure=True):
+def tok2_classifier(pkey, nontrivial_rule, dict_panic_is_failure=True, astral_clause=False):
     """classifier for the second predicate group (C03 C06 C08 C12 C13) of `tok` cases"""
     def classify(line, impl, mobs, extra):
         flags = pflags(extra)
@@ -79,7 +79,7 @@ def tok2_classifier(pkey, nontrivial_rule, dict_panic_is_failure=True):
             # (theorems counts_eq_evaluations, counts_history_independent)
             info["prop_fail"] = "counts-differ-from-evaluations"
             info["why"] = "the connection-id counter differs from the number of connection-cost evaluations (or update/probs panicked)"
-        elif pkey == "C03" and flags.get("C03A") == "0":
+        elif astral_clause and flags.get("C03A") == "0":
             info["prop_fail"] = "astral-char-takes-entry-0-category"
             info["why"] = "a character above U+FFFF was given the category of U+0000 instead of DEFAULT"
             tags.append("astral=entry0")
@@ -598,7 +598,7 @@ PROPS = {
                      "Vibrato.charInfo_astral_partial", "Vibrato.charInfo_astral_default", "Vibrato.astral_not_default",
                      "Vibrato.candidates_all_inserted", "Vibrato.candidate_is_stored",
                      "Vibrato.genUnk_eq", "Vibrato.mem_unkLengths", "Vibrato.lexMatches_spec", "Vibrato.lexMatches_complete"],
-        "streams": tok_streams("c01", 600, 20000, tok2_classifier("C03", has_lattice_choice)),
+        "streams": tok_streams("c01", 600, 20000, tok2_classifier("C03", has_lattice_choice, astral_clause=True)),
         "rule": "random char.def layouts (<= 6 categories, overlapping ranges, multi-category characters, every invoke/group/"
                 "length combination), 1-3 unk.def entries per category, max_grouping_len in {0,1,2,3,24}, lexicons with homographs "
                 "and nested prefixes; the candidate projection (word id, lex type, start node, start word, ids) of every boundary of "
